@@ -26,6 +26,7 @@ type ScriptFile struct {
 	Closes int
 	sticky error
 	after  int
+	rest   *Answer
 	ErrVal error // the error value delivered for non-EOF errors
 }
 
@@ -54,7 +55,11 @@ func (f *ScriptFile) Read(p []byte) (int, error) {
 		return 0, f.sticky
 	}
 	var a Answer
-	if f.step < len(f.Script) {
+	if f.rest != nil {
+		// the remainder of an answer that was larger than the caller's buffer
+		a = *f.rest
+		f.rest = nil
+	} else if f.step < len(f.Script) {
 		a = f.Script[f.step]
 		f.step++
 	} else {
@@ -71,6 +76,9 @@ func (f *ScriptFile) Read(p []byte) (int, error) {
 		n = len(f.Data) - f.pos
 	}
 	if n > len(p) {
+		// an answer larger than the caller's buffer is delivered in several reads; its error (or EOF) comes with the last piece
+		f.rest = &Answer{N: n - len(p), Err: a.Err}
+		a.Err = ""
 		n = len(p)
 	}
 	copy(p, f.Data[f.pos:f.pos+n])
